@@ -188,6 +188,14 @@ func (p List) primitiveElem(i int, expectedSize ObjectSize) (address, error) {
 	if !ok {
 		return 0, errorf("read list element %d: address overflow", i)
 	}
+	if p.flags&isCompositeList != 0 && expectedSize.DataSize == 0 && expectedSize.PointerCount > 0 {
+		// Pointer list upgraded to a struct list: the pointer is the
+		// first word of the element's pointer section.
+		addr, ok = addr.addSize(p.size.DataSize)
+		if !ok {
+			return 0, errorf("read list element %d: address overflow", i)
+		}
+	}
 	return addr, nil
 }
 
